@@ -35,6 +35,19 @@ def balance_check(r):
     return bad
 
 
+def conc_part(res):
+    """writers racing on the same border (the insert path allocates before it locks and must release on every retry
+    exit), removes racing with overwrites: after fin() no node or value block may be left"""
+    from . import conc
+    races = ["uput-uput-single", "uput-uput-full", "put-put-rem-single", "put-put-rem-full", "update-vs-split-43",
+             "rem-put-get", "collapse-vs-split-l0", "get-vs-rem-put-other"]
+    conc.conc_phase(res, "c11", ("leak", "deadlock"), races, (), False, 1600, ("preempt1",), 1, gen=conc.catalogue_gen,
+                    label="balance_after_racing_writers")
+    conc.conc_phase(res, "c11", ("leak", "deadlock"), ["single", "full", "two"], ("put", "uput", "rem"), False,
+                    150 if res.tier == "quick" else 1200, ("preempt1",) if res.tier == "quick" else ("preempt1", "race2", "pct"),
+                    2 if res.tier == "quick" else 8, label="balance_after_racing_writers_random")
+
+
 def run(tier, seed):
     res = C.Result("C11", tier, seed, level="proof")
     res.assumptions = ["allocator interposition counts operator new/delete of the process; memory TBB's queue keeps internally "
@@ -47,7 +60,8 @@ def run(tier, seed):
     seq.gen_script = gen
     try:
         return seq.run_seq_property(res, "c11", CATS, 40, 300, gen_kwargs=GEN, use_oracle=False, extra_check=balance_check,
-                                    extra_scripts=lambda rng, tier: seq.gen_gc_scripts(rng, tier) + seq.gen_storage_cycle_scripts(rng, tier))
+                                    extra_scripts=lambda rng, tier: seq.gen_gc_scripts(rng, tier) + seq.gen_storage_cycle_scripts(rng, tier),
+                                    post=conc_part)
     finally:
         seq.gen_script = old
 
